@@ -19,10 +19,10 @@ def gen_stats(family, level, minn=8, maxn=10, sizes=(100,), modes=("uni",), seed
            % (family, level, minn, maxn, 2 * vlib.NCPU, extra_consts, "".join("INVARIANT %s\n" % i for i in invariants)))
     r = vlib.run_tlc("MCGen", cfg, timeout=timeout, extra_files={"MCGen.tla": mc_module(base, sizes, modes, seeds)})
     vlib.tlc_ok(r, "%s family=%s level=%d" % (base, family, level))
-    vecs = [v for v in r.json if v.get("ev") == "vec"]
+    vecs = [v for v in r.json if v.get("ev") in ("vec", "fftvec")]
     seen, uniq = set(), []
     for v in vecs:
-        key = (json.dumps(v["label"], sort_keys=True), len(v["bits"]))
+        key = (json.dumps(v["label"], sort_keys=True), len(v.get("bits", [])))
         if key in seen:
             continue
         seen.add(key)
@@ -101,7 +101,12 @@ def compare_call(c, res, bitident=False):
         if e.get("panic"):
             bad.append("%s panicked: %s" % (e["entry"], e["panic"][:200]))
             continue
-        for fld in ("P", "Q", "P2", "Q2"):
+        if "alts" in c:
+            # the specification leaves bins within 1e-9 of the threshold undecided: any admissible N1 is accepted
+            alts = fn_list(c["alts"])
+            if not any(close(e["P"], a["P"]) and close(e["Q"], a["Q"]) for a in alts):
+                bad.append("%s P=%s Q=%s matches none of the %d admissible N1 (spec P=%s)" % (e["entry"], e["P"], e["Q"], len(alts), c["P"][:24]))
+        for fld in (() if "alts" in c else ("P", "Q", "P2", "Q2")):
             if fld in c:
                 if fld not in e:
                     # registry runner of a two-valued test reports P2/Q2 too; single-valued have none
@@ -123,7 +128,7 @@ def replay(run, hz, vecs, prop_of=None, nproc=None, check_proxy=True, facts_extr
     """Channel R. vecs: TLC vectors (ev=vec). Returns number of call evaluations."""
     for i, v in enumerate(vecs):
         v["id"] = i
-    jobs = [{"id": v["id"], "bits": v["bits"], "calls": v["calls"]} for v in vecs]
+    jobs = [{"id": v["id"], "bits": v["bits"], "calls": v["calls"], "word": v.get("word", []), "repeat": v.get("repeat", 0)} for v in vecs]
     from concurrent.futures import ThreadPoolExecutor
     k = max(1, min(nproc or vlib.NCPU, len(jobs)))
     tmp = vlib.scratch("statr")
@@ -151,11 +156,16 @@ def replay(run, hz, vecs, prop_of=None, nproc=None, check_proxy=True, facts_extr
             bad = compare_call(c, r, bitident)
             if check_proxy and "proxy" in r:
                 sv, sp = stat_of_vector(c), stat_of_proxy(c, r["proxy"])
+                if c["t"] == "dft":
+                    pr = r["proxy"]
+                    if pr["lo"] + pr["amb"] < c["N1"] or c["N1"] + c["amb"] < pr["lo"]:
+                        raise vlib.InfraError("DFT proxy count [%d,+%d] does not meet the exact count [%d,+%d] on %s" % (pr["lo"], pr["amb"], c["N1"], c["amb"], json.dumps(v["label"])))
+                    sv = None
                 if sv is not None and json.dumps(sv, sort_keys=True) != json.dumps(sp, sort_keys=True):
                     raise vlib.InfraError("spec proxy disagrees with the TLA+ definition on %s %s: spec %s proxy %s" % (
                         c["t"], json.dumps(v["label"]), json.dumps(sv)[:300], json.dumps(sp)[:300]))
             if bad:
-                facts = {"test": c["t"], "n": len(v["bits"]), "why": bad[0][:200]}
+                facts = {"test": c["t"], "n": len(v["bits"]) or v.get("repeat", 0), "why": bad[0][:200]}
                 for pk in ("m", "k", "d", "forward", "sym", "M"):
                     if pk in c:
                         facts[pk] = c[pk]
